@@ -222,6 +222,7 @@ func g19Struct(r *lib.Rng) (dw, discOff int, fs, vals []string, which string) {
 	}
 	nf := 1 + r.Intn(6)
 	nextDisc := 0
+	var used [][3]int // byte ranges of the integer-shaped fields so far, and whether each is a float
 	for j := 0; j < nf; j++ {
 		k := kinds[r.Intn(len(kinds))]
 		off := 0
@@ -233,12 +234,38 @@ func g19Struct(r *lib.Rng) (dw, discOff int, fs, vals []string, which string) {
 				off = (off + 16) % (dw * 64)
 			}
 			mask, v = uint64(r.Intn(2)), uint64(r.Intn(2))
+			bclash := false
+			for _, u := range used {
+				if u[2] == 1 && u[0] <= off/8 && off/8 < u[1] {
+					bclash = true
+				}
+			}
+			if bclash {
+				continue
+			}
+			used = append(used, [3]int{off / 8, off/8 + 1, 0})
 		case widths[k] > 0:
 			w := widths[k]
 			off = r.Intn(dw * 8 / w)
 			if useUnion && off*w/2 <= discOff && discOff < (off*w+w+1)/2 {
 				continue // would overlap the discriminant: not a layout the compiler produces
 			}
+			// a float must not share bytes with another field: what it then reads can be a NaN (see below)
+			lo, hi := off*w, off*w+w
+			clash := false
+			for _, u := range used {
+				if lo < u[1] && u[0] < hi && (u[2] == 1 || k == "f32" || k == "f64") {
+					clash = true
+				}
+			}
+			if clash {
+				continue
+			}
+			isF := 0
+			if k == "f32" || k == "f64" {
+				isF = 1
+			}
+			used = append(used, [3]int{lo, hi, isF})
 			if r.Intn(2) == 0 {
 				mask = r.U64()
 			}
